@@ -55,7 +55,14 @@ def decode(arr, scales=(1.0,)):
         big = a[np.abs(a) > 1e6]
     if big.size == 0:
         return None
-    big = np.unique(big[np.isfinite(big)])[:16]
+    big = np.unique(big[np.isfinite(big)])
+    # exact pass first: a value that IS a registered sentinel names its write unambiguously (a sentinel plus a
+    # small legitimate offset could otherwise round to the neighbouring sentinel of another operation)
+    for v in big[:4096]:
+        if v == np.rint(v) and abs(v) < 2**52 and int(-v) in _registry:
+            h, o, t = _registry[int(-v)]
+            return {"sentinel": float(v), "hist": h, "op": o, "target": t, "scale": 1.0}
+    big = big[:16]
     for v in big:
         for s in scales:
             if not s or not np.isfinite(s):
@@ -379,3 +386,62 @@ def clear_cache(name):
         val.clear()
         return True
     return False
+
+
+# ---------------------------------------------------------------------------------------------- introspection
+def _is_gridlike(v):
+    return hasattr(v, "points") and hasattr(v, "weights") and not isinstance(v, np.ndarray)
+
+
+def public_arrays(obj, depth=1, prefix=""):
+    """Every mutable array-valued PUBLIC attribute of ``obj`` found by introspection (properties and public instance
+    attributes): name -> ndarray or list of numbers.  Grid-valued attributes (``rgrid``) and lists of grids (``atgrids``)
+    are followed one level (``rgrid.points``, ``atgrids[0].weights``).  Nothing is assumed about the class."""
+    import inspect
+
+    out = {}
+    names = set(n for n in dir(type(obj)) if not n.startswith("_"))
+    names |= set(n for n in getattr(obj, "__dict__", {}) if not n.startswith("_"))
+    for n in sorted(names):
+        try:
+            static = inspect.getattr_static(type(obj), n)
+        except AttributeError:
+            static = None
+        if static is not None and not isinstance(static, property):
+            continue  # methods, class attributes
+        try:
+            v = getattr(obj, n)
+        except Exception:  # noqa - a property that cannot be evaluated now
+            continue
+        if isinstance(v, np.ndarray):
+            if v.size:
+                out[prefix + n] = v
+        elif isinstance(v, list) and v and all(isinstance(e, (int, float, np.integer, np.floating)) for e in v):
+            out[prefix + n] = v
+        elif depth > 0 and _is_gridlike(v):
+            out.update(public_arrays(v, depth - 1, prefix + n + "."))
+        elif depth > 0 and isinstance(v, (list, tuple)) and v and all(_is_gridlike(e) for e in v):
+            for i, e in enumerate(v[:3]):
+                out.update(public_arrays(e, depth - 1, f"{prefix}{n}[{i}]."))
+    return out
+
+
+def snapshot_public(obj):
+    """Copies of every discovered public array / list of ``obj`` (for same-arguments-same-result comparisons)."""
+    return {k: (np.array(v) if isinstance(v, np.ndarray) else list(v)) for k, v in public_arrays(obj).items()}
+
+
+def compare_public(obj, snap):
+    """Names of discovered public arrays that differ (bitwise, NaN = NaN) from the snapshot, with the first differing pair."""
+    cur = public_arrays(obj)
+    bad = []
+    for k, ref in snap.items():
+        got = cur.get(k)
+        if got is None:
+            bad.append((k, None, ref))
+        elif isinstance(ref, list):
+            if list(got) != ref:
+                bad.append((k, np.asarray(got, dtype=float), np.asarray(ref, dtype=float)))
+        elif not same_bits(np.asarray(got), ref):
+            bad.append((k, np.asarray(got), ref))
+    return bad
